@@ -97,22 +97,13 @@ Truth(i) == IF i.two THEN TruthTwo(i) ELSE TruthSelf(i)
 (***************************************************************************)
 (* Initial states: every input in the bounded universe                     *)
 (***************************************************************************)
-Inputs ==
-    { [engine |-> e, mode |-> m, k |-> k, seqs |-> s, two |-> t, seqs2 |-> s2,
-       cd |-> f, maxc |-> mc, comp |-> c] :
-        e \in Engines, m \in Modes, k \in Ks, s \in ListsUpTo(MaxN),
-        t \in (IF MaxN2 > 0 THEN BOOLEAN ELSE {FALSE}),
-        s2 \in (IF MaxN2 > 0 THEN ListsUpTo(MaxN2) \cup {<<>>} ELSE {<<>>}),
-        f \in CdFams, mc \in MaxCs, c \in Comps }
-
-WellFormed(i) ==
-    /\ (i.mode = "custom") <=> (i.cd # "none")
-    /\ (i.mode # "custom") => (i.maxc = Inf)
-    /\ (i.engine # "kd") => (i.comp = 1)
-    /\ (i.engine = "kd") => ~i.two               \* kdtree has no second collection
-    /\ i.two <=> (i.seqs2 # <<>>)
-
-Init == /\ inp \in { i \in Inputs : WellFormed(i) }
+\* (nested quantifiers with dependent ranges: enumerating a filtered set of records is two orders of magnitude slower in TLC)
+Init == /\ \E e \in Engines : \E m \in Modes : \E k \in Ks : \E sq \in ListsUpTo(MaxN) :
+           \E s2 \in (IF MaxN2 > 0 /\ e # "kd" THEN ListsUpTo(MaxN2) \cup {<<>>} ELSE {<<>>}) :      \* kdtree has no second collection
+           \E f \in (IF m = "custom" THEN CdFams \ {"none"} ELSE {"none"}) :
+           \E mc \in (IF m = "custom" THEN MaxCs ELSE {Inf}) :
+           \E c \in (IF e = "kd" THEN Comps ELSE {1}) :
+              inp = [engine |-> e, mode |-> m, k |-> k, seqs |-> sq, two |-> (s2 # <<>>), seqs2 |-> s2, cd |-> f, maxc |-> mc, comp |-> c]
         /\ phase = "start"
         /\ nbuilt = 0
         /\ index = <<>>
